@@ -213,10 +213,55 @@ def e2e(arg):
             st["e2e_values"] += 1
             if got != exp:
                 F.violation("C13:e2e:wrong-value-for-name", "in a build with %s, %%{%s} returns %r, expected %r: another implementation answers to this name" % (extra[:5], n, got[:60], exp[:60]), wit)
+        e2e_invivo(bld, ou_on, fl_on, F, st, extra, work)
     finally:
         rmwork(work)
         shutil.rmtree(bld.dir, ignore_errors=True)
     return F, st
+
+
+def e2e_invivo(bld, ou_on, fl_on, F, st, extra, work):
+    """the reduced build's production library, through snoopy.ini: every output that is still available must receive the
+    record when named in `output =`, every filter still available must decide as its name says (uid 0, stdin on a pty)."""
+    from vlib.drive import sink_bytes
+    logf = os.path.join(work, "invivo.log")
+    sockp = os.path.join(work, "sock")
+    cases = []
+    for o in sorted(ou_on):
+        spec = {"file": "file:" + logf, "socket": "socket:" + sockp, "stdout": "stdout", "stderr": "stderr", "devlog": "devlog", "devnull": "devnull",
+                "devtty": None, "syslog": None, "noop": "noop"}.get(o)
+        if spec:
+            cases.append(("output", o, 'message_format = "E2E-%s"\noutput = %s\n' % (o, spec), True))
+    for fl, chain, logged in (("only_root", "only_root", True), ("only_uid", "only_uid:0", True), ("only_uid", "only_uid:5", False), ("exclude_uid", "exclude_uid:0", False),
+                              ("exclude_uid", "exclude_uid:5", True), ("only_tty", "only_tty", True), ("exclude_spawns_of", "exclude_spawns_of:no-such-prog", True)):
+        if fl in fl_on and "file" in ou_on:
+            cases.append(("filter", chain, 'message_format = "E2E-%s"\noutput = file:%s\nfilter_chain = "%s"\n' % (chain, logf, chain), logged))
+    s = Script()
+    s.raw("sinkfile " + logf.encode().hex())
+    s.raw("stdin pty")
+    for i, (kind, name, conf, logged) in enumerate(cases):
+        s.conf(("[snoopy]\n" + conf).encode())
+        s.call(i + 1, "execve", b"/bin/e2e", [b"e2e"], [b"E=1"], -1, 2)
+    res = run_vdrive(bld, s.text(), work, timeout=120, heap=False, mtx=False)
+    reals = {e["id"]: e for e in res.events if e["ev"] == "REAL"}
+    for i, (kind, name, conf, logged) in enumerate(cases):
+        e = reals.get(i + 1)
+        wit = dict(configure_args=extra, config=conf)
+        if e is None:
+            F.violation("C13:e2e:call-did-not-complete", "in a build with %s the call under %s %r never reached the real exec" % (extra[:5], kind, name), wit)
+            return
+        st["e2e_invivo"] = st.get("e2e_invivo", 0) + 1
+        want = ("E2E-%s" % name).encode()
+        sk = e["sinks"]
+        where = {"file": bytes.fromhex(sk.get("file0", "")), "stdout": bytes.fromhex(sk["stdout"]), "stderr": bytes.fromhex(sk["stderr"]),
+                 "socket": b"|".join(bytes.fromhex(x) for x in sk["sock"]), "devlog": b"|".join(bytes.fromhex(x) for x in sk["devlog"])}
+        target = name if kind == "output" else "file"
+        for sink, data in where.items():
+            has = want in data
+            should = logged and sink == target
+            if has != should and not (kind == "output" and name in ("devnull", "noop") and not has):
+                F.violation("C13:e2e:%s-misbound" % kind, "in a build with %s, %s %r: sink %s %s the record (expected: %s)" % (
+                    extra[:5], kind, name, sink, "got" if has else "did not get", "record at %s" % target if logged else "no record"), wit)
 
 
 # ------------------------------------------------------------------ names shared by several registries
@@ -318,6 +363,11 @@ def main():
             off = rng.sample([("DATASOURCE", n) for n in ds_all], rng.randrange(1, 10)) + rng.sample([("FILTER", n) for n in fl_all], 1) + \
                   rng.sample([("OUTPUT", n) for n in ou_all if n not in ("syslog", "devlog")], 1)
         ejobs.append((off, not (i % 4 == 3), i))
+    # the first entries of each registry switched off (what comes first then is a different, still available name)
+    ejobs.append(([("OUTPUT", "devlog")], True, ne))
+    if tr != "quick":
+        ejobs.append(([("OUTPUT", "devlog"), ("OUTPUT", "devnull"), ("OUTPUT", "devtty")], True, ne + 1))
+        ejobs.append(([("FILTER", "exclude_spawns_of"), ("DATASOURCE", "cgroup")], False, ne + 2))
     for f, st in pmap(e2e, ejobs, 4):
         merge_findings(F, f)
         for k, v in st.items():
